@@ -85,7 +85,9 @@ def permute(fmt, spec, seed):
     elif fmt == "discinfo":
         pass                                    # no unordered part: disc numbers are caller-ordered content
     elif FMF is not None:
-        s = FMF.permute(fmt, s, rng)
+        # every other rearranged rpms history also DROPS the writes that a later write of the same slot replaces: the same content
+        # (last write wins) built with fewer calls must be written as the same bytes
+        s = FMF.permute(fmt, s, rng, reduce=(fmt == "rpms" and seed % 2 == 0))
     return s
 
 
